@@ -753,4 +753,1337 @@ theorem subshellOpen_out (p : P) (hw : W p) (hlp : p.sum.last = some (.op [40]) 
         subst hl
         rfl
 
+/-- fields a step leaves alone (everything the token bookkeeping reads, except `wantNewline`) -/
+structure Flds (p q : P) : Prop where
+  out : q.out = p.out
+  ws : q.wantSpace = p.wantSpace
+  o : q.o = p.o
+  wsemi : q.wroteSemi = p.wroteSemi
+  first : q.firstLine = p.firstLine
+  must : q.mustNewline = p.mustNewline
+  line : q.line = p.line
+
+theorem Flds.rfl' (p : P) : Flds p p := ⟨rfl, rfl, rfl, rfl, rfl, rfl, rfl⟩
+theorem Flds.trans {a b c : P} (h1 : Flds a b) (h2 : Flds b c) : Flds a c :=
+  ⟨h2.out.trans h1.out, h2.ws.trans h1.ws, h2.o.trans h1.o, h2.wsemi.trans h1.wsemi, h2.first.trans h1.first,
+    h2.must.trans h1.must, h2.line.trans h1.line⟩
+theorem Flds.sum {p q : P} (h : Flds p q) : q.sum = p.sum := P.sum_same _ _ h.out
+theorem Flds.w {p q : P} (h : Flds p q) (hw : W p) : W q :=
+  ⟨by rw [h.sum]; exact hw.ok, by rw [h.sum, h.ws]; exact hw.gap⟩
+
+theorem Flds.incLevel (p : P) : Flds p p.incLevel := by
+  unfold P.incLevel
+  (repeat' split) <;> exact ⟨rfl, rfl, rfl, rfl, rfl, rfl, rfl⟩
+
+theorem Flds.decLevel (p : P) (h : p.levelIncs ≠ []) : Flds p p.decLevel := by
+  unfold P.decLevel
+  split
+  · rename_i e; exact absurd e h
+  · exact ⟨rfl, rfl, rfl, rfl, rfl, rfl, rfl⟩
+
+/-- `decLevel` apart from the panic flag -/
+theorem Flds.decLevel' (p : P) : Flds p p.decLevel := by
+  unfold P.decLevel
+  split <;> exact ⟨rfl, rfl, rfl, rfl, rfl, rfl, rfl⟩
+
+/-- the state in which `nestedStmts` starts its statement loop -/
+def P.nestedStart (p : P) (ss : Stmts) (closing : Pos) : P :=
+  if ss.length > 1 then { p.incLevel with wantNewline := true }
+  else if closing.line > p.incLevel.line && ss.length > 0 && ss.endLine < closing.line then
+    { p.incLevel with wantNewline := true }
+  else p.incLevel
+
+theorem nestedStmtsWith_eq (p : P) (ss : Stmts) (closing : Pos) (loop : P → P) :
+    p.nestedStmtsWith ss closing loop = ((p.nestedStart ss closing).stmtListWith ss loop).decLevel := rfl
+
+theorem nestedStart_flds (p : P) (ss : Stmts) (closing : Pos) :
+    Flds p (p.nestedStart ss closing) ∧ (ss.length > 1 → (p.nestedStart ss closing).wantNewline = true) ∧
+      (p.wantNewline = true → (p.nestedStart ss closing).wantNewline = true) := by
+  have hi := Flds.incLevel p
+  have hwn : p.incLevel.wantNewline = p.wantNewline := by
+    unfold P.incLevel
+    (repeat' split) <;> rfl
+  unfold P.nestedStart
+  split
+  · exact ⟨⟨hi.out, hi.ws, hi.o, hi.wsemi, hi.first, hi.must, hi.line⟩, fun _ => rfl, fun _ => rfl⟩
+  · rename_i h1
+    split
+    · exact ⟨⟨hi.out, hi.ws, hi.o, hi.wsemi, hi.first, hi.must, hi.line⟩, fun _ => rfl, fun _ => rfl⟩
+    · exact ⟨hi, fun h => absurd h h1, fun h => by rw [hwn]; exact h⟩
+
+theorem stmtListWith_flds (q : P) (ss : Stmts) (loop : P → P) : Flds (loop q) (q.stmtListWith ss loop) := by
+  unfold P.stmtListWith
+  dsimp only
+  (repeat' split) <;> exact ⟨rfl, rfl, rfl, rfl, rfl, rfl, rfl⟩
+
+/-- `nestedStmts` is its statement loop as far as the written pieces and the flags we track go -/
+theorem nested_flds (p : P) (ss : Stmts) (closing : Pos) (loop : P → P) :
+    Flds (loop (p.nestedStart ss closing)) (p.nestedStmtsWith ss closing loop) := by
+  rw [nestedStmtsWith_eq]
+  exact (stmtListWith_flds _ ss loop).trans (Flds.decLevel' _)
+
+/-- a blank (or none) before a closing token, whatever `wantSpace` is set to -/
+structure PadOut (p q : P) : Prop where
+  ok : q.sum.ok = true
+  toks : q.sum.toks = p.sum.toks
+  sk : q.sum.sk = p.sum.sk
+  last : q.sum.last = p.sum.last ∨ ∃ g, q.sum.last = some (.gap g)
+  o : q.o = p.o
+  first : q.firstLine = p.firstLine
+  must : q.mustNewline = p.mustNewline
+  wsemi : q.wroteSemi = p.wroteSemi
+  wnl : q.wantNewline = p.wantNewline
+  line : q.line = p.line
+
+theorem pad_any (p : P) (hok : p.sum.ok = true) (ws : WS) : PadOut p ({ p with wantSpace := ws } : P).spacePad := by
+  unfold P.spacePad
+  split
+  · have hsum : (P.sum { (P.gapw { p with wantSpace := ws } [32]) with wantSpace := .written }) = p.sum.step (.gap [32]) :=
+      P.sum_push p _ _ rfl
+    exact ⟨by rw [hsum, step_space]; exact hok, by rw [hsum, step_space], by rw [hsum, step_space],
+      Or.inr ⟨[32], by rw [hsum, step_space]⟩, rfl, rfl, rfl, rfl, rfl, rfl⟩
+  · exact ⟨hok, rfl, rfl, Or.inl rfl, rfl, rfl, rfl, rfl, rfl, rfl⟩
+
+theorem PadOut.notLp {p q : P} (h : PadOut p q) (hn : NotLp p) : NotLp q := by
+  intro e
+  rcases h.last with e' | ⟨g, e'⟩
+  · exact hn (e' ▸ e)
+  · rw [e'] at e; cases e
+
+/-- what writing a closing token (`)` or `}`) with its layout establishes -/
+structure CloseOut (p r : P) (ts : List ATok) (lastB : Bytes) : Prop where
+  toks : r.sum.toks = p.sum.toks ++ ts
+  w : W r
+  ws : r.wantSpace = .required
+  sk : r.sum.sk = false
+  last : r.sum.last = some (.op lastB)
+  o : r.o = p.o
+  first : r.firstLine = false
+  must : p.mustNewline = false → r.mustNewline = false
+
+theorem closingParenSpace_eq (p : P) (ss : Stmts) (a b : Nat) :
+    ∃ ws : WS, p.closingParenSpace ss a b = ({ p with wantSpace := ws } : P).spacePad := by
+  unfold P.closingParenSpace
+  dsimp only
+  cases ss with
+  | nil =>
+    simp only [Bool.false_and, Bool.false_eq_true, ↓reduceIte]
+    exact ⟨_, rfl⟩
+  | cons s r =>
+    cases r with
+    | nil =>
+      dsimp only
+      split
+      · exact ⟨.required, rfl⟩
+      · exact ⟨_, rfl⟩
+    | cons s2 r2 =>
+      simp only [Bool.false_and, Bool.false_eq_true, ↓reduceIte]
+      exact ⟨_, rfl⟩
+
+/-- `closingParen`: the optional blank, the optional newline and `)` -/
+theorem closeParen_out (p : P) (hw : W p) (hf : p.firstLine = false) (hsk : p.sum.sk = false) (hnl : NotLp p)
+    (ss : Stmts) (a b rl : Nat) :
+    ∃ nl : Bool, CloseOut p ((p.closingParenSpace ss a b).rightParen rl) (nlT nl ++ [.rparen]) [41] := by
+  obtain ⟨ws, hws⟩ := closingParenSpace_eq p ss a b
+  rw [hws]
+  have hp := pad_any p hw.ok ws
+  have hqn := hp.notLp hnl
+  obtain ⟨q, hq⟩ : ∃ q : P, q = ({ p with wantSpace := ws } : P).spacePad := ⟨_, rfl⟩
+  rw [← hq] at hp hqn ⊢
+  unfold P.rightParen
+  dsimp only
+  have hqf : q.firstLine = false := by rw [hp.first]; exact hf
+  obtain ⟨n0, n1⟩ := newlines_gen q hp.ok hqf rl
+  -- `)` written directly after `q`
+  have hdirect : ∀ r : P, r = ({ (q.tok [41]) with wantSpace := .required } : P) →
+      CloseOut p r (nlT false ++ [.rparen]) [41] := by
+    intro r hr
+    subst hr
+    have hsum : (P.sum { (q.tok [41]) with wantSpace := .required }) = q.sum.step (.op [41]) := P.sum_push q _ _ rfl
+    have hst := step_rparen q.sum (fun l hl e => hqn (by rw [hl, e]))
+    exact ⟨by rw [hsum, hst, hp.toks]; rfl, ⟨by rw [hsum, hst]; exact hp.ok, fun _ _ _ => rfl⟩, rfl, by rw [hsum, hst],
+      by rw [hsum, hst], hp.o, hqf, fun h => by show q.mustNewline = false; rw [hp.must]; exact h⟩
+  cases hmin : q.o.minify with
+  | true =>
+    simp only [Bool.not_true, Bool.false_eq_true, ↓reduceIte]
+    exact ⟨false, hdirect _ rfl⟩
+  | false =>
+    simp only [Bool.not_false, ↓reduceIte]
+    cases hwn : q.wantsNewline rl false with
+    | false =>
+      rw [n0 hwn]
+      exact ⟨false, hdirect _ rfl⟩
+    | true =>
+      have hn := n1 hwn
+      refine ⟨true, ?_⟩
+      have hsum : (P.sum { ((q.newlines rl).tok [41]) with wantSpace := .required }) = (q.newlines rl).sum.step (.op [41]) :=
+        P.sum_push _ _ _ rfl
+      have hst := step_rparen (q.newlines rl).sum (fun l hl e => by
+        obtain ⟨g, hg⟩ := hn.last
+        rw [hg] at hl; cases hl; cases e)
+      refine ⟨?_, ⟨by rw [hsum, hst]; exact hn.w.ok, fun _ _ _ => rfl⟩, rfl, by rw [hsum, hst], by rw [hsum, hst],
+        hn.o.trans hp.o, hn.first, fun _ => hn.must⟩
+      rw [hsum, hst, hn.toks, hp.sk, hsk, hp.toks]
+      simp [nlT]
+
+/-- `}` with the optional blank before it, directly after `;` / `&` -/
+theorem brace_after (q : P) (hok : q.sum.ok = true) (hqws : q.wantSpace = .required)
+    (hlast : q.sum.last = some (.op [59]) ∨ q.sum.last = some (.op [38])) :
+    let r : P := { ((if (!q.o.minify) = true then q.spacePad else q).tok [125]) with wantSpace := .required }
+    r.sum.toks = q.sum.toks ++ [.rbrace] ∧ r.sum.ok = true ∧ r.sum.sk = false ∧ r.sum.last = some (.op [125]) ∧
+      r.o = q.o ∧ r.firstLine = q.firstLine ∧ r.mustNewline = q.mustNewline := by
+  intro r
+  cases hmin : q.o.minify with
+  | true =>
+    have hr : r = { (q.tok [125]) with wantSpace := .required } := by
+      show ({ ((if (!q.o.minify) = true then q.spacePad else q).tok [125]) with wantSpace := .required } : P) = _
+      simp [hmin]
+    have hsum : r.sum = q.sum.step (.op [125]) := by rw [hr]; exact P.sum_push q _ _ rfl
+    have hst := step_rbrace q.sum (fun l hl => by
+      rcases hlast with e | e <;> (rw [e] at hl; cases hl; simp))
+    refine ⟨by rw [hsum, hst], by rw [hsum, hst]; exact hok, by rw [hsum, hst], by rw [hsum, hst], ?_, ?_, ?_⟩ <;>
+      (rw [hr]; rfl)
+  | false =>
+    have hpad : q.spacePad = { q.gapw [32] with wantSpace := .written } := by
+      unfold P.spacePad
+      rw [if_pos hqws]
+    have hr : r = { (({ q.gapw [32] with wantSpace := .written } : P).tok [125]) with wantSpace := .required } := by
+      show ({ ((if (!q.o.minify) = true then q.spacePad else q).tok [125]) with wantSpace := .required } : P) = _
+      simp [hmin, hpad]
+    have hs1 : (P.sum { q.gapw [32] with wantSpace := .written }) = q.sum.step (.gap [32]) := P.sum_push q _ _ rfl
+    have hsum : r.sum = (q.sum.step (.gap [32])).step (.op [125]) := by
+      rw [hr, ← hs1]
+      exact P.sum_push _ _ _ rfl
+    have hst := step_rbrace (q.sum.step (.gap [32])) (fun l hl => by
+      rw [step_space] at hl
+      cases hl
+      trivial)
+    refine ⟨by rw [hsum, hst, step_space], by rw [hsum, hst, step_space]; exact hok, by rw [hsum, hst], by rw [hsum, hst],
+      ?_, ?_, ?_⟩ <;> (rw [hr]; rfl)
+
+/-- `semiRsrv("}")` after a non-empty list -/
+theorem closeBrace_out (p : P) (hw : W p) (hws : p.wantSpace = .required) (hf : p.firstLine = false)
+    (hsk : p.sum.sk = false)
+    (hl0 : p.wroteSemi = false → ∃ l, p.sum.last = some l ∧ Closed l)
+    (hl1 : p.wroteSemi = true → p.sum.last = some (.op [59]) ∨ p.sum.last = some (.op [38]))
+    (rl : Nat) :
+    ∃ mid : List ATok, CloseOut p (p.semiRsrv [125] rl) (mid ++ [.rbrace]) [125] ∧
+      (mid = [.newl] ∨ (mid = [.semi] ∧ p.wroteSemi = false) ∨ (mid = [] ∧ p.wroteSemi = true)) := by
+  obtain ⟨n0, n1⟩ := newlines_gen p hw.ok hf rl
+  unfold P.semiRsrv
+  dsimp only
+  cases hwn : p.wantsNewline rl false with
+  | true =>
+    simp only [↓reduceIte]
+    have hn := n1 hwn
+    have hsum : (P.sum { ((p.newlines rl).tok [125]) with wantSpace := .required }) = (p.newlines rl).sum.step (.op [125]) :=
+      P.sum_push _ _ _ rfl
+    have hst := step_rbrace (p.newlines rl).sum (fun l hl => by
+      obtain ⟨g, hg⟩ := hn.last
+      rw [hg] at hl; cases hl; trivial)
+    refine ⟨[.newl], ⟨?_, ⟨by rw [hsum, hst]; exact hn.w.ok, fun _ _ _ => rfl⟩, rfl, by rw [hsum, hst], by rw [hsum, hst],
+      hn.o, hn.first, fun _ => hn.must⟩, Or.inl rfl⟩
+    rw [hsum, hst, hn.toks, hsk]
+    simp
+  | false =>
+    simp only [Bool.false_eq_true, ↓reduceIte]
+    cases hwsemi : p.wroteSemi with
+    | false =>
+      simp only [Bool.not_false, ↓reduceIte]
+      obtain ⟨l, hl, hc⟩ := hl0 hwsemi
+      have hs1 : (p.tok [59]).sum = p.sum.step (.op [59]) := P.sum_push p _ _ rfl
+      have hst1 := step_term p.sum [59] (Or.inl rfl) (fun x hx => by
+        rw [hl] at hx; cases hx
+        cases l with
+        | word _ => trivial
+        | gap _ => trivial
+        | op y => rcases hc with rfl | rfl <;> decide)
+      have hb := brace_after (p.tok [59]) (by rw [hs1, hst1]; exact hw.ok) hws (Or.inl (by rw [hs1, hst1]))
+      obtain ⟨b1, b2, b3, b4, b5, b6, b7⟩ := hb
+      refine ⟨[.semi], ⟨?_, ⟨b2, fun _ _ _ => rfl⟩, rfl, b3, b4, b5, by rw [b6]; exact hf, fun h => by rw [b7]; exact h⟩,
+        by simp⟩
+      rw [b1, hs1, hst1]
+      simp
+    | true =>
+      simp only [Bool.not_true, Bool.false_eq_true, ↓reduceIte]
+      have hb := brace_after p hw.ok hws (hl1 hwsemi)
+      obtain ⟨b1, b2, b3, b4, b5, b6, b7⟩ := hb
+      refine ⟨[], ⟨by rw [b1]; simp, ⟨b2, fun _ _ _ => rfl⟩, rfl, b3, b4, b5, by rw [b6]; exact hf,
+        fun h => by rw [b7]; exact h⟩, by simp⟩
+
+/-- `{` with the flags the block case sets -/
+structure BOpenOut (p r : P) (lb : Pos) : Prop where
+  toks : r.sum.toks = p.sum.toks ++ [.lbrace]
+  w : W r
+  o : r.o = p.o
+  first : r.firstLine = p.firstLine
+  sk : r.sum.sk = false
+  line : r.line = max p.line lb.line
+  must : r.mustNewline = p.mustNewline
+  ws : r.wantSpace = .required
+  last : r.sum.last = some (.op [123])
+
+theorem blockOpen_out (p : P) (hw : W p) (lb : Pos) (wn : Bool) :
+    BOpenOut p { ((p.advanceLine lb.line).spacePad.tok [123]) with wroteSemi := true, wantSpace := .required, wantNewline := wn } lb := by
+  have qa := Quiet.advanceLine hw lb.line
+  obtain ⟨qs, hqs⟩ := Quiet.spacePad qa.w
+  have hfree := qs.w.free hqs
+  have hq0 := qa.trans qs
+  have hsum : (P.sum { ((p.advanceLine lb.line).spacePad.tok [123]) with wroteSemi := true, wantSpace := .required, wantNewline := wn }) =
+      (p.advanceLine lb.line).spacePad.sum.step (.op [123]) := P.sum_push _ _ _ rfl
+  have hst := step_lbrace (p.advanceLine lb.line).spacePad.sum hfree
+  refine ⟨by rw [hsum, hst, hq0.toks], ⟨by rw [hsum, hst]; exact hq0.w.ok, fun _ _ _ => rfl⟩, hq0.same.o, hq0.same.first,
+    by rw [hsum, hst], ?_, hq0.same.must, rfl, by rw [hsum, hst]⟩
+  show (p.advanceLine lb.line).spacePad.line = _
+  rw [line_spacePad]; rfl
+
+/-- the state after a command: a word, `)` or `}` was written last -/
+structure AfterCmd (p : P) : Prop where
+  ws : p.wantSpace = .required
+  sk : p.sum.sk = false
+  last : ∃ l, p.sum.last = some l ∧ Closed l
+
+theorem AfterWord.toCmd {p : P} (h : AfterWord p) : AfterCmd p :=
+  ⟨h.ws, h.sk, by obtain ⟨parts, e⟩ := h.last; exact ⟨_, e, trivial⟩⟩
+
+/-- the terminator `stmtEnd` writes, if any, after any command -/
+theorem stmtEnd_gen (p : P) (hw : W p) (ha : AfterCmd p) (semi : Pos) (bg : Bool) :
+    ∃ term : Term, (p.stmtEnd semi bg).sum.toks = p.sum.toks ++ term.toks ∧ W (p.stmtEnd semi bg) ∧
+      Same' p (p.stmtEnd semi bg) ∧ (p.stmtEnd semi bg).wantSpace = .required ∧ (p.stmtEnd semi bg).sum.sk = false ∧
+      (p.stmtEnd semi bg).wroteSemi = (term != .none) ∧ (bg = true → term = .amp) ∧ (bg = false → term ≠ .amp) ∧
+      (p.o.singleLine = true → bg = false → term = .none) ∧
+      (term = .none → ∃ l, (p.stmtEnd semi bg).sum.last = some l ∧ Closed l) ∧
+      (semi.valid = false → bg = false → term = .none) ∧
+      (term ≠ .none → (p.stmtEnd semi bg).sum.last = some (.op [59]) ∨ (p.stmtEnd semi bg).sum.last = some (.op [38])) := by
+  have hisum : p.incLevel.sum = p.sum := (Flds.incLevel p).sum
+  obtain ⟨hi, hiw⟩ := Quiet.incLevel hw
+  obtain ⟨l0, hl0, hc0⟩ := ha.last
+  unfold P.stmtEnd
+  dsimp only
+  by_cases hc : (semi.valid && decide (semi.line > p.incLevel.line) && !p.incLevel.o.singleLine || bg) = true
+  · rw [if_pos hc]
+    have h2 : ∃ q : P, q = (if (semi.valid && decide (semi.line > p.incLevel.line) && !p.incLevel.o.singleLine) = true
+          then p.incLevel.bslashNewl else if (!p.incLevel.o.minify) = true then p.incLevel.space else p.incLevel) ∧
+        Quiet p.incLevel q := by
+      refine ⟨_, rfl, ?_⟩
+      split
+      · exact (Quiet.bslashNewl hi.w).1
+      · split
+        · exact (Quiet.space hi.w).1
+        · exact Quiet.rfl' hi.w
+    obtain ⟨q, hq, hqq⟩ := h2
+    rw [← hq]
+    have hqlast : ∀ l, q.sum.last = some l →
+        (match l with | .op x => x ≠ [59] ∧ x ≠ [38] ∧ x ≠ [124] ∧ x ≠ [40] | _ => True) := by
+      intro l hl
+      rcases hqq.last with h | ⟨g, h⟩
+      · rw [h, hisum, hl0] at hl
+        cases hl
+        cases l0 with
+        | word _ => trivial
+        | gap _ => trivial
+        | op x => rcases hc0 with rfl | rfl <;> decide
+      · rw [h] at hl; cases hl; trivial
+    let b : Bytes := if bg then [38] else [59]
+    have hb : b = [59] ∨ b = [38] := by cases bg <;> simp [b]
+    let q2 : P := { (q.tok b) with wroteSemi := true, wantSpace := .required }
+    have hsum2 : q2.sum = q.sum.step (.op b) := P.sum_push q _ _ rfl
+    have hst := step_term q.sum b hb hqlast
+    have hw2 : W q2 := ⟨by rw [hsum2, hst]; exact hqq.w.ok, fun _ _ _ => rfl⟩
+    obtain ⟨hd, hdw⟩ := Quiet.decLevel hw2
+    have hdsum : q2.decLevel.sum = q2.sum := (Flds.decLevel' q2).sum
+    have hgoal : (if bg = true then P.tok q [38] else P.tok q [59]) = q.tok b := by cases bg <;> rfl
+    rw [hgoal]
+    have hsame : Same' p q2.decLevel := by
+      have s1 := hi.same.weak.trans hqq.same.weak
+      exact s1.trans ((⟨rfl, rfl, rfl, rfl⟩ : Same' q q2).trans hd.same.weak)
+    refine ⟨if bg then .amp else .semi, ?_, hd.w, hsame, by rw [hdw], ?_, ?_, ?_, ?_, ?_, ?_, ?_, ?_⟩
+    · rw [hd.toks, hsum2, hst, hqq.toks, hi.toks]
+      cases bg <;> simp [b, Term.toks]
+    · rw [hd.sk, hsum2, hst]
+    · rw [hd.same.wsemi]
+      cases bg <;> rfl
+    · intro h; simp [h]
+    · intro h; simp [h]
+    · intro hsl hbg
+      subst hbg
+      have ho : p.incLevel.o = p.o := hi.same.o
+      simp [ho, hsl] at hc
+    · intro h
+      cases bg <;> simp at h
+    · intro hsv hbg
+      subst hbg
+      simp [hsv] at hc
+    · intro _
+      show q2.decLevel.sum.last = _ ∨ q2.decLevel.sum.last = _
+      rw [hdsum, hsum2, hst]
+      rcases hb with e | e
+      · exact Or.inl (by rw [e])
+      · exact Or.inr (by rw [e])
+  · rw [if_neg hc]
+    have hbg : bg = false := by
+      cases bg with
+      | false => rfl
+      | true => simp at hc
+    let q0 : P := { p.incLevel with wroteSemi := false }
+    have hw0 : W q0 := ⟨hi.w.ok, hi.w.gap⟩
+    have hs0 : q0.sum = p.incLevel.sum := P.sum_same _ _ rfl
+    obtain ⟨hd, hdw⟩ := Quiet.decLevel hw0
+    show ∃ term : Term, q0.decLevel.sum.toks = p.sum.toks ++ term.toks ∧ W q0.decLevel ∧
+      Same' p q0.decLevel ∧ q0.decLevel.wantSpace = .required ∧ q0.decLevel.sum.sk = false ∧
+      q0.decLevel.wroteSemi = (term != .none) ∧ (bg = true → term = .amp) ∧ (bg = false → term ≠ .amp) ∧
+      (p.o.singleLine = true → bg = false → term = .none) ∧
+      (term = .none → ∃ l, q0.decLevel.sum.last = some l ∧ Closed l) ∧
+      (semi.valid = false → bg = false → term = .none) ∧
+      (term ≠ .none → q0.decLevel.sum.last = some (.op [59]) ∨ q0.decLevel.sum.last = some (.op [38]))
+    have hsame : Same' p q0.decLevel :=
+      (hi.same.weak.trans (⟨rfl, rfl, rfl, rfl⟩ : Same' p.incLevel q0)).trans hd.same.weak
+    refine ⟨.none, by rw [hd.toks, hs0, hi.toks]; simp [Term.toks], hd.w, hsame,
+      by rw [hdw]; exact hiw.trans ha.ws,
+      by rw [hd.sk, hs0, hi.sk]; exact ha.sk, by rw [hd.same.wsemi]; rfl, ?_, ?_, fun _ _ => rfl, fun _ => ?_,
+      fun _ _ => rfl, fun h => absurd rfl h⟩
+    · intro h; rw [hbg] at h; cases h
+    · intro _; simp
+    have e1 : q0.decLevel.sum = q0.sum := (Flds.decLevel' q0).sum
+    exact ⟨l0, by rw [e1, hs0, hisum]; exact hl0, hc0⟩
+
+/-- `p.spacedToken(op)` after a command -/
+theorem Adv.spacedToken' (p : P) (hw : W p) (hl : LastCG p) (op : BinOp) :
+    Adv p (p.spacedToken op.str) [opA op] ∧ (p.spacedToken op.str).sum.sk = false ∧
+      (p.spacedToken op.str).sum.last = some (.op op.str) := by
+  unfold P.spacedToken
+  split
+  · let q : P := { (p.tok op.str) with wantSpace := .notRequired }
+    have hs : q.sum = p.sum.step (.op op.str) := P.sum_push p _ _ rfl
+    have hst := step_binop' p.sum op hl
+    refine ⟨⟨rfl, fun h => h, rfl, by show q.sum.toks = _; rw [hs, hst], ⟨by show q.sum.ok = true; rw [hs, hst]; exact hw.ok, ?_⟩⟩,
+      by show q.sum.sk = false; rw [hs, hst], by show q.sum.last = _; rw [hs, hst]⟩
+    intro l hl' hn
+    have : q.sum.last = some l := hl'
+    rw [hs, hst] at this
+    simp only [Option.some.injEq] at this
+    subst this
+    rw [needsGap_binop] at hn
+    cases hn
+  · obtain ⟨hq, _⟩ := Quiet.spacePad hw
+    have hl2 := hl.of_quiet hq
+    let q : P := { (p.spacePad.tok op.str) with wantSpace := .required }
+    have hs : q.sum = p.spacePad.sum.step (.op op.str) := P.sum_push _ _ _ rfl
+    have hst := step_binop' p.spacePad.sum op hl2
+    refine ⟨⟨hq.same.o, fun h => by show p.spacePad.mustNewline = false; rw [hq.same.must]; exact h, hq.same.first,
+      by show q.sum.toks = _; rw [hs, hst, hq.toks], ⟨by show q.sum.ok = true; rw [hs, hst]; exact hq.w.ok, fun _ _ _ => rfl⟩⟩,
+      by show q.sum.sk = false; rw [hs, hst], by show q.sum.last = _; rw [hs, hst]⟩
+
+theorem newline_last (p : P) (l : Nat) : (p.newline l).sum.last = some (.gap [10]) := by
+  have hs : (p.newline l).sum = p.sum.step (.gap [10]) := P.sum_push p _ _ rfl
+  rw [hs, step_nl]
+
+theorem binop_notLp (op : BinOp) {q : P} (h : q.sum.last = some (.op op.str)) : NotLp q := by
+  intro e
+  rw [h] at e
+  cases op <;> cases e
+
+/-- the operator of a binary command with the layout around it, after any command -/
+theorem Adv.binaryOp' (p : P) (hw : W p) (hl : LastCG p) (opPos : Pos) (op : BinOp) (yl : Nat) (yb : Bool) :
+    ∃ nl : Bool, Adv p (p.binaryOp opPos op yl yb).1 (opA op :: nlT nl) ∧ (p.binaryOp opPos op yl yb).1.sum.sk = nl ∧
+      NotLp (p.binaryOp opPos op yl yb).1 := by
+  unfold P.binaryOp
+  split
+  · obtain ⟨h1, h2, h3⟩ := Adv.spacedToken' p hw hl op
+    have qa := Quiet.advanceLine h1.w yl
+    exact ⟨false, by simpa [nlT] using h1.trans (Adv.of_quiet qa), by rw [qa.sk, h2], (binop_notLp op h3).of_quiet qa⟩
+  · dsimp only
+    have h0 : ∃ q : P, q = (if (!p.nestedBinary) = true then p.incLevel else p) ∧ Quiet p q := by
+      refine ⟨_, rfl, ?_⟩
+      split
+      · exact (Quiet.incLevel hw).1
+      · exact Quiet.rfl' hw
+    obtain ⟨q, hq, hqq⟩ := h0
+    rw [← hq]
+    have hlq := hl.of_quiet hqq
+    split
+    · obtain ⟨hb, _⟩ := Quiet.bslashNewl hqq.w
+      obtain ⟨h1, h2, h3⟩ := Adv.spacedToken' q.bslashNewl hb.w (hlq.of_quiet hb) op
+      have qa := Quiet.advanceLine h1.w yl
+      have hfin : Quiet (q.bslashNewl.spacedToken op.str |>.advanceLine yl)
+          { (q.bslashNewl.spacedToken op.str |>.advanceLine yl) with nestedBinary := yb } :=
+        Quiet.of_out qa.w rfl ⟨rfl, rfl, rfl, rfl, rfl⟩ rfl
+      refine ⟨false, ?_, ?_, ?_⟩
+      · have := ((Adv.of_quiet (hqq.trans hb)).trans h1).trans (Adv.of_quiet (qa.trans hfin))
+        simpa [nlT] using this
+      · show (P.sum { (q.bslashNewl.spacedToken op.str |>.advanceLine yl) with nestedBinary := yb }).sk = false
+        rw [hfin.sk, qa.sk, h2]
+      · exact (binop_notLp op h3).of_quiet (qa.trans hfin)
+    · obtain ⟨h1, h2, h3⟩ := Adv.spacedToken' q hqq.w hlq op
+      have qa := Quiet.advanceLine h1.w opPos.line
+      obtain ⟨hn, hnsk⟩ := Adv.newline _ qa.w 0
+      obtain ⟨hi, _⟩ := Quiet.indent hn.w
+      have qb := Quiet.advanceLine hi.w yl
+      have hfin : Quiet ((((q.spacedToken op.str).advanceLine opPos.line).newline 0).indent.advanceLine yl)
+          { ((((q.spacedToken op.str).advanceLine opPos.line).newline 0).indent.advanceLine yl) with nestedBinary := yb } :=
+        Quiet.of_out qb.w rfl ⟨rfl, rfl, rfl, rfl, rfl⟩ rfl
+      refine ⟨true, ?_, ?_, ?_⟩
+      · have hskq : ((q.spacedToken op.str).advanceLine opPos.line).sum.sk = false := by rw [qa.sk, h2]
+        rw [hskq] at hn
+        have := (((Adv.of_quiet hqq).trans h1).trans (Adv.of_quiet qa)).trans
+          (hn.trans (Adv.of_quiet (hi.trans (qb.trans hfin))))
+        simpa [nlT] using this
+      · show (P.sum { ((((q.spacedToken op.str).advanceLine opPos.line).newline 0).indent.advanceLine yl) with nestedBinary := yb }).sk = true
+        rw [hfin.sk, qb.sk, hi.sk, hnsk]
+      · -- a newline was written after the operator
+        intro e
+        have hlastnl := newline_last ((q.spacedToken op.str).advanceLine opPos.line) 0
+        have hq3 := hi.trans (qb.trans hfin)
+        rcases hq3.last with e' | ⟨g, e'⟩
+        · rw [e', hlastnl] at e; cases e
+        · rw [e'] at e; cases e
+
+/-! ## D. Statements, commands and lists in general -/
+
+def LStmts.finalTerm : LStmts → Term
+  | .one s _ => s.term
+  | .cons _ _ r => r.finalTerm
+
+/-- the layout with `;` after its last statement -/
+def LStmts.withFinalSemi : LStmts → LStmts
+  | .one s nl => .one (s.withTerm .semi) nl
+  | .cons s nl r => .cons s nl r.withFinalSemi
+
+theorem LStmts.withFinalSemi_facts : ∀ (lt : LStmts), lt.finalTerm = .none → lt.finalNl = false →
+    lt.withFinalSemi.toks = lt.toks ++ [.semi] ∧ lt.withFinalSemi.valid = lt.valid ∧
+    lt.withFinalSemi.norm = lt.norm ∧ lt.withFinalSemi.closable = true
+  | .one s nl, ht, hn => by
+    simp only [LStmts.finalNl] at hn
+    subst hn
+    obtain ⟨a1, a2, a3, a4⟩ := LStmt.withTerm_semi s ht
+    refine ⟨by simp [LStmts.withFinalSemi, LStmts.toks, nlT, a1], by simp [LStmts.withFinalSemi, LStmts.valid, a2],
+      by simp [LStmts.withFinalSemi, LStmts.norm, a3], ?_⟩
+    obtain ⟨n, c, t⟩ := s
+    simp [LStmts.withFinalSemi, LStmts.closable, LStmt.withTerm, LStmt.endsInWord]
+  | .cons s nl r, ht, hn => by
+    obtain ⟨h1, h2, h3, h4⟩ := LStmts.withFinalSemi_facts r (by simpa [LStmts.finalTerm] using ht)
+      (by simpa [LStmts.finalNl] using hn)
+    simp [LStmts.withFinalSemi, LStmts.toks, LStmts.valid, LStmts.norm, LStmts.closable, h1, h2, h3, h4,
+      List.append_assoc]
+
+theorem LStmts.withFinalNl_closable : ∀ (lt : LStmts), lt.withFinalNl.closable = true
+  | .one s nl => by simp [LStmts.withFinalNl, LStmts.closable]
+  | .cons s nl r => by simpa [LStmts.withFinalNl, LStmts.closable] using LStmts.withFinalNl_closable r
+
+theorem LStmts.closable_of_term : ∀ (lt : LStmts), lt.finalTerm ≠ .none → lt.closable = true
+  | .one s nl, h => by
+    obtain ⟨n, c, t⟩ := s
+    simp only [LStmts.finalTerm, LStmt.term] at h
+    cases t <;> simp [LStmts.closable, LStmt.endsInWord] at h ⊢
+  | .cons s nl r, h => by
+    simpa [LStmts.closable] using LStmts.closable_of_term r (by simpa [LStmts.finalTerm] using h)
+
+/-- positions as a parser assigns them, seen from the printer state: the remaining line numbers
+    are sorted and none is behind the printer's line counter -/
+def Pre (p : P) (lines : List Nat) : Prop := lines.Pairwise (· ≤ ·) ∧ ∀ l ∈ lines, p.line ≤ l
+
+theorem Pre.left {p : P} {X Y : List Nat} (h : Pre p (X ++ Y)) : Pre p X :=
+  ⟨(List.pairwise_append.mp h.1).1, fun l hl => h.2 l (List.mem_append_left _ hl)⟩
+
+theorem Pre.right {p : P} {X Y : List Nat} (h : Pre p (X ++ Y)) : Pre p Y :=
+  ⟨(List.pairwise_append.mp h.1).2.1, fun l hl => h.2 l (List.mem_append_right _ hl)⟩
+
+/-- after printing what carries the lines `X`, the rest `Y` is still ahead -/
+theorem Pre.next {p p' : P} {X Y : List Nat} (h : Pre p (X ++ Y))
+    (hb : ∀ M, p.line ≤ M → (∀ l ∈ X, l ≤ M) → p'.line ≤ M) : Pre p' Y := by
+  obtain ⟨h1, h2, h3⟩ := List.pairwise_append.mp h.1
+  exact ⟨h2, fun l hl => hb l (h.2 l (List.mem_append_right _ hl)) (fun x hx => h3 x hx l hl)⟩
+
+/-- the same when the step may also move the counter to the head of the rest -/
+theorem Pre.next' {p p' : P} {X Y : List Nat} (h : Pre p (X ++ Y))
+    (hb : ∀ M, p.line ≤ M → (∀ l ∈ X, l ≤ M) → (∀ a, Y.head? = some a → a ≤ M) → p'.line ≤ M) : Pre p' Y := by
+  obtain ⟨h1, h2, h3⟩ := List.pairwise_append.mp h.1
+  refine ⟨h2, fun l hl => hb l (h.2 l (List.mem_append_right _ hl)) (fun x hx => h3 x hx l hl) ?_⟩
+  intro a ha
+  cases Y with
+  | nil => cases ha
+  | cons b t =>
+    simp only [List.head?_cons, Option.some.injEq] at ha
+    subst ha
+    rcases List.mem_cons.mp hl with rfl | hl'
+    · exact Nat.le_refl _
+    · exact (List.pairwise_cons.mp h2).1 l hl'
+
+theorem Pre.mono {p p' : P} {X : List Nat} (h : Pre p X) (hl : p'.line ≤ p.line) : Pre p' X :=
+  ⟨h.1, fun l hm => Nat.le_trans hl (h.2 l hm)⟩
+
+theorem Pre.head_le {p : P} {a : Nat} {X : List Nat} (h : Pre p (a :: X)) : ∀ l ∈ a :: X, a ≤ l := by
+  intro l hl
+  rcases List.mem_cons.mp hl with rfl | hl
+  · exact Nat.le_refl _
+  · exact (List.pairwise_cons.mp h.1).1 l hl
+
+theorem Pre.tail {p : P} {a : Nat} {X : List Nat} (h : Pre p (a :: X)) : Pre p X :=
+  ⟨(List.pairwise_cons.mp h.1).2, fun l hl => h.2 l (List.mem_cons_of_mem _ hl)⟩
+
+theorem Stmt.lines_head (s : Stmt) : ∃ t, s.lines = s.pos.line :: t := by
+  obtain ⟨pos, semi, neg, bg, cmd⟩ := s
+  exact ⟨_, rfl⟩
+
+/-- a step that moves the line counter at most to the head of the remaining lines -/
+theorem Pre.step {p p' : P} {X : List Nat} (h : Pre p X) (hb : ∀ M, p.line ≤ M → (∀ a, X.head? = some a → a ≤ M) → p'.line ≤ M) :
+    Pre p' X := by
+  refine ⟨h.1, fun l hl => hb l (h.2 l hl) ?_⟩
+  intro a ha
+  cases X with
+  | nil => cases ha
+  | cons b t =>
+    simp only [List.head?_cons, Option.some.injEq] at ha
+    subst ha
+    exact Pre.head_le h l hl
+
+/-- the state right after a statement of a list (and `p.wantNewline = true` set by the loop) -/
+structure PostG (p : P) : Prop where
+  w : W p
+  ws : p.wantSpace = .required
+  wnl : p.wantNewline = true
+  must : p.mustNewline = false
+  first : p.firstLine = false
+  sk : p.sum.sk = false
+  last : p.wroteSemi = false → ∃ l, p.sum.last = some l ∧ Closed l
+  notLp : NotLp p
+  notRefused : refuse p.o = false
+
+theorem stmtSep_postG (p : P) (hp : PostG p) (l : Nat) :
+    ∃ pre, (p.stmtSep false l).sum.toks = p.sum.toks ++ pre ∧ W (p.stmtSep false l) ∧ (p.stmtSep false l).o = p.o ∧
+      (p.stmtSep false l).mustNewline = false ∧ (p.stmtSep false l).firstLine = false ∧ NotLp (p.stmtSep false l) ∧
+      ((p.o.singleLine = false ∧ pre = [.newl]) ∨
+       (p.o.singleLine = true ∧ pre = (if p.wroteSemi then [] else [ATok.semi]))) := by
+  cases hsl : p.o.singleLine with
+  | false =>
+    have hsep : p.stmtSep false l = (p.newlines l).advanceLine l := by
+      unfold P.stmtSep
+      simp [hsl, hp.ws]
+    rw [hsep]
+    have hwn : p.wantsNewline l false = true := by
+      simp [P.wantsNewline, hp.must, hsl, hp.wnl]
+    have hn := ((newlines_gen p hp.w.ok hp.first l).2 hwn).advance l
+    refine ⟨[.newl], by rw [hn.toks, hp.sk]; rfl, hn.w, hn.o, hn.must, hn.first, ?_, Or.inl ⟨rfl, rfl⟩⟩
+    intro e
+    obtain ⟨g, hg⟩ := hn.last
+    rw [hg] at e; cases e
+  | true =>
+    have hmin : p.o.minify = false := by
+      have := hp.notRefused
+      simp only [refuse, hsl, Bool.and_true] at this
+      exact this
+    cases hws : p.wroteSemi with
+    | true =>
+      have hnl : p.newlines l = p := by
+        unfold P.newlines
+        simp [hp.first, P.wantsNewline, hp.must, hsl]
+      have hsep : p.stmtSep false l = p.advanceLine l := by
+        unfold P.stmtSep
+        simp [hsl, hws, hmin, hnl]
+      rw [hsep]
+      have qa := Quiet.advanceLine hp.w l
+      exact ⟨[], by simp [qa.toks], qa.w, qa.same.o, by rw [qa.same.must, hp.must], by rw [qa.same.first, hp.first],
+        hp.notLp.of_quiet qa, Or.inr ⟨rfl, by simp⟩⟩
+    | false =>
+      let q1 : P := { (p.tok [59]) with wantSpace := .required }
+      have hs1 : q1.sum = p.sum.step (.op [59]) := P.sum_push p _ _ rfl
+      have hlast : ∀ x, p.sum.last = some x →
+          (match x with | .op y => y ≠ [59] ∧ y ≠ [38] ∧ y ≠ [124] ∧ y ≠ [40] | _ => True) := by
+        intro x hx
+        obtain ⟨l0, hl, hc⟩ := hp.last hws
+        rw [hl] at hx
+        cases hx
+        cases x with
+        | word _ => trivial
+        | gap _ => trivial
+        | op y => rcases hc with rfl | rfl <;> decide
+      have hst := step_term p.sum [59] (Or.inl rfl) hlast
+      have hw1 : W q1 := ⟨by rw [hs1, hst]; exact hp.w.ok, fun _ _ _ => rfl⟩
+      have hnl : q1.newlines l = q1 := by
+        unfold P.newlines
+        have h1 : q1.firstLine = false := hp.first
+        have h2 : q1.wantsNewline l false = false := by
+          show (if p.mustNewline = true then true else if p.o.singleLine = true then false else _) = false
+          simp [hp.must, hsl]
+        simp [h1, h2]
+      have hsep : p.stmtSep false l = q1.advanceLine l := by
+        unfold P.stmtSep
+        have hc : (!false && p.o.singleLine && p.wantNewline && !p.wroteSemi) = true := by
+          simp [hsl, hp.wnl, hws]
+        simp only [hc, ↓reduceIte]
+        have hcond : (q1.mustNewline || !q1.o.minify || decide (q1.wantSpace = .required)) = true := by
+          show (p.mustNewline || !p.o.minify || decide (WS.required = WS.required)) = true
+          simp
+        show (if (q1.mustNewline || !q1.o.minify || decide (q1.wantSpace = .required)) = true then q1.newlines l else q1).advanceLine l = _
+        rw [if_pos hcond, hnl]
+      rw [hsep]
+      have qa := Quiet.advanceLine hw1 l
+      refine ⟨[.semi], ?_, qa.w, by rw [qa.same.o]; rfl, by rw [qa.same.must]; exact hp.must,
+        by rw [qa.same.first]; exact hp.first, ?_, Or.inr ⟨rfl, by simp⟩⟩
+      · rw [qa.toks, hs1, hst]
+        simp
+      · have : NotLp q1 := by
+          intro e
+          rw [hs1, hst] at e
+          cases e
+        exact this.of_quiet qa
+
+/-- the separator before the first statement of a nested list: a newline or nothing -/
+theorem firstSep (p : P) (hw : W p) (hf : p.firstLine = false) (l : Nat) :
+    ((p.sepCond && p.wantsNewline l false) = true ∧ NlOut p (p.stmtSep true l)) ∨
+    ((p.sepCond && p.wantsNewline l false) = false ∧ p.stmtSep true l = p.advanceLine l) := by
+  rw [stmtSep_first_eq]
+  obtain ⟨n0, n1⟩ := newlines_gen p hw.ok hf l
+  cases hc : p.sepCond with
+  | false => exact Or.inr ⟨by simp, by simp⟩
+  | true =>
+    cases hwn : p.wantsNewline l false with
+    | false => exact Or.inr ⟨by simp, by simp [n0 hwn]⟩
+    | true => exact Or.inl ⟨by simp, by simpa using (n1 hwn).advance l⟩
+
+theorem line_stmtPre (p : P) (neg : Bool) : (p.stmtPre neg).line = p.line := by
+  unfold P.stmtPre
+  dsimp only
+  split
+  · rw [line_spacedString]
+  · rfl
+
+/-- what printing a command establishes -/
+structure CmdOutG (p p' : P) (c : Cmd) (lc : LCmd) : Prop where
+  adv : Adv p p' lc.toks
+  valid : lc.valid = true
+  norm : lc.norm = c.norm
+  ao : lc.isAndOr = c.isAndOr
+  bin : lc.isBinary = c.isBinary
+  after : AfterCmd p'
+
+/-- what printing a statement establishes -/
+structure StmtOutG (p p' : P) (s : Stmt) (ls : LStmt) : Prop where
+  adv : Adv p p' ls.toks
+  valid : ls.valid = true
+  norm : ls.norm = s.norm
+  neg : ls.neg = s.negated
+  ao : ls.cmd.isAndOr = s.cmd.isAndOr
+  bin : ls.cmd.isBinary = s.cmd.isBinary
+  ws : p'.wantSpace = .required
+  sk : p'.sum.sk = false
+  wsemi : p'.wroteSemi = (ls.term != .none)
+  bare : s.bare = true → ls.term = .none
+  single : p.o.singleLine = true → s.bg = false → ls.term = .none
+  amp : (ls.term == .amp) = s.bg
+  last : ls.term = .none → ∃ l, p'.sum.last = some l ∧ Closed l
+  lastT : ls.term ≠ .none → p'.sum.last = some (.op [59]) ∨ p'.sum.last = some (.op [38])
+
+/-- what the statement loop establishes: tokens `pre ++ lt.toks`, and the state after the last
+    statement -/
+structure ListOut (p p' : P) (ss : Stmts) (pre : List ATok) (lt : LStmts) : Prop where
+  toks : p'.sum.toks = p.sum.toks ++ (pre ++ lt.toks)
+  valid : lt.valid = true
+  norm : lt.norm = ss.norm
+  fnl : lt.finalNl = false
+  w : W p'
+  sk : p'.sum.sk = false
+  o : p'.o = p.o
+  ws : p'.wantSpace = .required
+  first : p'.firstLine = false
+  must : p'.mustNewline = false
+  wsemi : p'.wroteSemi = (lt.finalTerm != .none)
+  last : lt.finalTerm = .none → ∃ l, p'.sum.last = some l ∧ Closed l
+  lastT : lt.finalTerm ≠ .none → p'.sum.last = some (.op [59]) ∨ p'.sum.last = some (.op [38])
+
+theorem ListOut.notLp {p p' : P} {ss : Stmts} {pre : List ATok} {lt : LStmts} (h : ListOut p p' ss pre lt) : NotLp p' := by
+  cases ht : lt.finalTerm with
+  | none => exact NotLp.of_closed (h.last ht)
+  | semi =>
+    intro e
+    rcases h.lastT (by rw [ht]; simp) with e' | e' <;> (rw [e'] at e; cases e)
+  | amp =>
+    intro e
+    rcases h.lastT (by rw [ht]; simp) with e' | e' <;> (rw [e'] at e; cases e)
+
+/-- the separator the loop writes before a further statement -/
+def SepOK (p : P) (pre : List ATok) : Prop :=
+  (p.o.singleLine = false ∧ pre = [.newl]) ∨
+  (p.o.singleLine = true ∧ pre = (if p.wroteSemi then [] else [ATok.semi]))
+
+/-- the state after a statement, as the loop leaves it -/
+theorem postG_of_stmtOut {q : P} {s : Stmt} {ls : LStmt} (hs : StmtOutG q (q.stmt s) s ls)
+    (hm : q.mustNewline = false) (hf : q.firstLine = false) (hr : refuse q.o = false) :
+    PostG { (q.stmt s) with wantNewline := true } := by
+  refine ⟨⟨hs.adv.w.ok, hs.adv.w.gap⟩, hs.ws, rfl, hs.adv.must hm, by show (q.stmt s).firstLine = false; rw [hs.adv.first, hf],
+    hs.sk, ?_, ?_, by show refuse (q.stmt s).o = false; rw [hs.adv.o]; exact hr⟩
+  · intro h
+    have h' : (q.stmt s).wroteSemi = false := h
+    rw [hs.wsemi] at h'
+    have : ls.term = .none := by
+      cases ht : ls.term <;> simp [ht] at h' ⊢
+    exact hs.last this
+  · show NotLp (q.stmt s)
+    cases ht : ls.term with
+    | none => exact NotLp.of_closed (hs.last ht)
+    | semi =>
+      intro e
+      rcases hs.lastT (by rw [ht]; simp) with e' | e' <;> (rw [e'] at e; cases e)
+    | amp =>
+      intro e
+      rcases hs.lastT (by rw [ht]; simp) with e' | e' <;> (rw [e'] at e; cases e)
+
+/-- a statement followed by the rest of its list -/
+theorem list_assemble {q : P} {s : Stmt} {ls : LStmt} (hs : StmtOutG q (q.stmt s) s ls)
+    (hm : q.mustNewline = false) (hf : q.firstLine = false) (rest : Stmts)
+    (ih : rest ≠ .nil → ∃ pre lt, ListOut { (q.stmt s) with wantNewline := true }
+        (P.stmtListLoop { (q.stmt s) with wantNewline := true } false rest) rest pre lt ∧
+        SepOK { (q.stmt s) with wantNewline := true } pre) :
+    ∃ lt, ListOut q (P.stmtListLoop { (q.stmt s) with wantNewline := true } false rest) (.cons s rest) [] lt := by
+  have htoks : (P.sum { (q.stmt s) with wantNewline := true }).toks = q.sum.toks ++ ls.toks := hs.adv.toks
+  have hwsemi : (({ (q.stmt s) with wantNewline := true } : P)).wroteSemi = (ls.term != .none) := hs.wsemi
+  have hso : (({ (q.stmt s) with wantNewline := true } : P)).o = q.o := hs.adv.o
+  cases rest with
+  | nil =>
+    rw [P.stmtListLoop]
+    refine ⟨.one ls false, ?_, by simpa [LStmts.valid] using hs.valid, by simp [LStmts.norm, Stmts.norm, hs.norm], rfl,
+      ⟨hs.adv.w.ok, hs.adv.w.gap⟩, hs.sk, hso, hs.ws, by show (q.stmt s).firstLine = false; rw [hs.adv.first, hf],
+      hs.adv.must hm, hs.wsemi, hs.last, hs.lastT⟩
+    rw [htoks]
+    simp [LStmts.toks, nlT]
+  | cons s2 rest2 =>
+    obtain ⟨pre2, lt2, hl, hsep⟩ := ih (by simp)
+    rcases hsep with ⟨_, rfl⟩ | ⟨_, rfl⟩
+    · refine ⟨.cons ls true lt2, ?_, by simp [LStmts.valid, hs.valid, hl.valid],
+        by simp [LStmts.norm, Stmts.norm, hs.norm, hl.norm], hl.fnl, hl.w, hl.sk, hl.o.trans hso, hl.ws, hl.first, hl.must,
+        hl.wsemi, hl.last, hl.lastT⟩
+      rw [hl.toks, htoks]
+      simp [LStmts.toks, nlT, List.append_assoc]
+    · have htk := hl.toks
+      rw [hwsemi] at htk
+      cases hterm : ls.term with
+      | none =>
+        obtain ⟨a1, a2, a3, a4⟩ := LStmt.withTerm_semi ls hterm
+        refine ⟨.cons (ls.withTerm .semi) false lt2, ?_, ?_, by simp [LStmts.norm, Stmts.norm, a3, hs.norm, hl.norm],
+          hl.fnl, hl.w, hl.sk, hl.o.trans hso, hl.ws, hl.first, hl.must, hl.wsemi, hl.last, hl.lastT⟩
+        · rw [htk, htoks, hterm]
+          simp [LStmts.toks, nlT, a1, List.append_assoc]
+        · simp only [LStmts.valid, a2, hs.valid, a4, hl.valid]
+          rfl
+      | semi =>
+        refine ⟨.cons ls false lt2, ?_, ?_, by simp [LStmts.norm, Stmts.norm, hs.norm, hl.norm],
+          hl.fnl, hl.w, hl.sk, hl.o.trans hso, hl.ws, hl.first, hl.must, hl.wsemi, hl.last, hl.lastT⟩
+        · rw [htk, htoks, hterm]
+          simp [LStmts.toks, nlT, List.append_assoc]
+        · simp only [LStmts.valid, hs.valid, hterm, hl.valid]
+          rfl
+      | amp =>
+        refine ⟨.cons ls false lt2, ?_, ?_, by simp [LStmts.norm, Stmts.norm, hs.norm, hl.norm],
+          hl.fnl, hl.w, hl.sk, hl.o.trans hso, hl.ws, hl.first, hl.must, hl.wsemi, hl.last, hl.lastT⟩
+        · rw [htk, htoks, hterm]
+          simp [LStmts.toks, nlT, List.append_assoc]
+        · simp only [LStmts.valid, hs.valid, hterm, hl.valid]
+          rfl
+
+theorem Stmt.pos_le_lines {p : P} {s : Stmt} {Y : List Nat} (h : Pre p (s.lines ++ Y)) : ∀ l ∈ s.lines, s.pos.line ≤ l := by
+  obtain ⟨t, ht⟩ := Stmt.lines_head s
+  intro l hl
+  have h' := Pre.left h
+  rw [ht] at h' hl
+  exact Pre.head_le h' l hl
+
+theorem Stmt.pos_mem_lines (s : Stmt) : s.pos.line ∈ s.lines := by
+  obtain ⟨t, ht⟩ := Stmt.lines_head s
+  rw [ht]; simp
+
+/-- A nested statement list, from the state after the opening token: an optional newline and a
+    valid layout of the list.  The statements themselves are handled by the hypotheses `ihs`,
+    `ihr` (the induction hypotheses of the callers). -/
+theorem nested_list (r1 : P) (s : Stmt) (rest : Stmts) (hw1 : W r1) (hf : r1.firstLine = false)
+    (hsk : r1.sum.sk = false) (hr : refuse r1.o = false) (hpre : Pre r1 (s.lines ++ rest.lines))
+    (hopen : s.startsWithLparen = true → r1.sum.last = some (.op [40]) →
+      r1.wantSpace = .required ∨ (r1.sepCond && r1.wantsNewline s.pos.line false) = true)
+    (ihs : ∀ q : P, W q → q.firstLine = false → q.mustNewline = false → refuse q.o = false → Pre q s.lines →
+      (s.startsWithLparen = true → q.sum.last = some (.op [40]) → q.wantSpace = .required) →
+      ∃ ls, StmtOutG q (q.stmt s) s ls)
+    (ihr : rest ≠ .nil → ∀ q : P, PostG q → Pre q rest.lines →
+      ∃ pre lt, ListOut q (q.stmtListLoop false rest) rest pre lt ∧ SepOK q pre) :
+    ∃ (nl : Bool) (lt : LStmts), ListOut r1 (r1.stmtListLoop true (.cons s rest)) (.cons s rest) (nlT nl) lt := by
+  have hunf : r1.stmtListLoop true (.cons s rest) =
+      P.stmtListLoop { ((r1.stmtSep true s.pos.line).stmt s) with wantNewline := true } false rest := by
+    rw [P.stmtListLoop]
+  rw [hunf]
+  have hposle := Stmt.pos_le_lines hpre
+  have hpq : Pre (r1.stmtSep true s.pos.line) s.lines :=
+    ⟨(Pre.left hpre).1, fun l hl => le_stmtSep true _ ((Pre.left hpre).2 l hl) (hposle l hl)⟩
+  have hprest : Pre ({ ((r1.stmtSep true s.pos.line).stmt s) with wantNewline := true } : P) rest.lines :=
+    Pre.next hpre (fun M h1 h2 => le_stmt s M _ (le_stmtSep true _ h1 (h2 _ (Stmt.pos_mem_lines s))) h2)
+  -- the common part, given what the separator did
+  have hcommon : ∀ (nl : Bool), W (r1.stmtSep true s.pos.line) → (r1.stmtSep true s.pos.line).firstLine = false →
+      (r1.stmtSep true s.pos.line).mustNewline = false → (r1.stmtSep true s.pos.line).o = r1.o →
+      (r1.stmtSep true s.pos.line).sum.toks = r1.sum.toks ++ nlT nl →
+      (s.startsWithLparen = true → (r1.stmtSep true s.pos.line).sum.last = some (.op [40]) →
+        (r1.stmtSep true s.pos.line).wantSpace = .required) →
+      ∃ lt, ListOut r1 (P.stmtListLoop { ((r1.stmtSep true s.pos.line).stmt s) with wantNewline := true } false rest)
+        (.cons s rest) (nlT nl) lt := by
+    intro nl hwq hfq hmq hoq htq hlpq
+    have hrq : refuse (r1.stmtSep true s.pos.line).o = false := by rw [hoq]; exact hr
+    obtain ⟨ls, hs⟩ := ihs _ hwq hfq hmq hrq hpq hlpq
+    obtain ⟨lt, hl⟩ := list_assemble hs hmq hfq rest (fun hne => ihr hne _ (postG_of_stmtOut hs hmq hfq hrq) hprest)
+    refine ⟨lt, ?_, hl.valid, hl.norm, hl.fnl, hl.w, hl.sk, hl.o.trans hoq, hl.ws, hl.first, hl.must, hl.wsemi, hl.last,
+      hl.lastT⟩
+    rw [hl.toks, htq]
+    simp [List.append_assoc]
+  rcases firstSep r1 hw1 hf s.pos.line with ⟨_, hn⟩ | ⟨hc, heq⟩
+  · obtain ⟨lt, hl⟩ := hcommon true hn.w hn.first hn.must hn.o (by rw [hn.toks, hsk]; rfl) (fun _ e => by
+      obtain ⟨g, hg⟩ := hn.last
+      rw [hg] at e; cases e)
+    exact ⟨true, lt, hl⟩
+  · have qa := Quiet.advanceLine hw1 s.pos.line
+    have hmust : r1.mustNewline = false := by
+      cases hmn : r1.mustNewline with
+      | false => rfl
+      | true =>
+        have : (r1.sepCond && r1.wantsNewline s.pos.line false) = true := by
+          simp [P.sepCond, P.wantsNewline, hmn]
+        rw [this] at hc
+        cases hc
+    rw [heq] at hcommon ⊢
+    obtain ⟨lt, hl⟩ := hcommon false qa.w (by rw [qa.same.first]; exact hf) (by rw [qa.same.must]; exact hmust) qa.same.o
+      (by rw [qa.toks]; simp [nlT]) (fun hs e => by
+        have hsum : (r1.advanceLine s.pos.line).sum = r1.sum := P.sum_same _ _ rfl
+        rw [hsum] at e
+        rcases hopen hs e with h | h
+        · exact h
+        · rw [h] at hc; cases hc)
+    exact ⟨false, lt, hl⟩
+
+theorem LStmts.withFinalNl_finalTerm : ∀ (lt : LStmts), lt.withFinalNl.finalTerm = lt.finalTerm
+  | .one s nl => rfl
+  | .cons s nl r => by simpa [LStmts.withFinalNl, LStmts.finalTerm] using LStmts.withFinalNl_finalTerm r
+
+/-- `( … )`, given the induction hypotheses for the statements inside -/
+theorem subshell_out (p : P) (lp rp : Pos) (s : Stmt) (rest : Stmts) (hw : W p) (hf : p.firstLine = false)
+    (_hm : p.mustNewline = false) (hr : refuse p.o = false)
+    (hpre : Pre p (Cmd.subshell lp rp (.cons s rest)).lines)
+    (hlp : p.sum.last = some (.op [40]) → p.wantSpace = .required)
+    (ihs : ∀ q : P, W q → q.firstLine = false → q.mustNewline = false → refuse q.o = false → Pre q s.lines →
+      (s.startsWithLparen = true → q.sum.last = some (.op [40]) → q.wantSpace = .required) →
+      ∃ ls, StmtOutG q (q.stmt s) s ls)
+    (ihr : rest ≠ .nil → ∀ q : P, PostG q → Pre q rest.lines →
+      ∃ pre lt, ListOut q (q.stmtListLoop false rest) rest pre lt ∧ SepOK q pre) :
+    ∃ lc, CmdOutG p (p.command (.subshell lp rp (.cons s rest))) (.subshell lp rp (.cons s rest)) lc := by
+  have hop := subshellOpen_out p hw hlp lp s rest
+  obtain ⟨r0, hr0⟩ : ∃ r0, r0 = (p.advanceLine lp.line).spacePad.subshellOpen lp (.cons s rest) := ⟨_, rfl⟩
+  rw [← hr0] at hop
+  obtain ⟨fl1, wn1, _⟩ := nestedStart_flds r0 (.cons s rest) rp
+  obtain ⟨r1, hr1⟩ : ∃ r1, r1 = r0.nestedStart (.cons s rest) rp := ⟨_, rfl⟩
+  rw [← hr1] at fl1 wn1
+  have hw1 : W r1 := fl1.w hop.w
+  have hf1 : r1.firstLine = false := by rw [fl1.first, hop.first]; exact hf
+  have hsk1 : r1.sum.sk = false := by rw [fl1.sum]; exact hop.sk
+  have hr1o : refuse r1.o = false := by rw [fl1.o, hop.o]; exact hr
+  have hlines : (Cmd.subshell lp rp (.cons s rest)).lines = lp.line :: ((s.lines ++ rest.lines) ++ [rp.line]) := by
+    simp [Cmd.lines, Stmts.lines]
+  rw [hlines] at hpre
+  have hplp : p.line ≤ lp.line := hpre.2 _ (by simp)
+  have hr1line : r1.line = lp.line := by rw [fl1.line, hop.line]; exact Nat.max_eq_right hplp
+  have hpre1 : Pre r1 (s.lines ++ rest.lines) := by
+    have h' := Pre.left (Pre.tail hpre)
+    refine ⟨h'.1, fun l hl => ?_⟩
+    rw [hr1line]
+    exact Pre.head_le hpre l (List.mem_cons_of_mem _ (List.mem_append_left _ hl))
+  have hopen : s.startsWithLparen = true → r1.sum.last = some (.op [40]) →
+      r1.wantSpace = .required ∨ (r1.sepCond && r1.wantsNewline s.pos.line false) = true := by
+    intro hs e
+    rw [fl1.sum] at e
+    rcases hop.opened hs with ⟨g, hg⟩ | ⟨h1, h2, h3⟩
+    · rw [hg] at e; cases e
+    · right
+      have ho : r1.o = r0.o := fl1.o
+      cases hmin : r0.o.minify with
+      | true =>
+        have hmn : r1.mustNewline = true := by rw [fl1.must]; exact h3 hmin
+        simp [P.sepCond, P.wantsNewline, hmn]
+      | false =>
+        have hsl : r1.o.singleLine = false := by rw [ho]; exact h1
+        have hmin1 : r1.o.minify = false := by rw [ho]; exact hmin
+        have hwnl : (r1.wantNewline || decide (s.pos.line > r1.line)) = true := by
+          rcases h2 with h2 | h2
+          · have hle : lp.line ≤ s.pos.line :=
+              Pre.head_le hpre _ (List.mem_cons_of_mem _ (List.mem_append_left _ (List.mem_append_left _ (Stmt.pos_mem_lines s))))
+            rw [hr1line]
+            simp only [Bool.or_eq_true, decide_eq_true_eq]
+            right; omega
+          · have : r1.wantNewline = true := wn1 (by simp only [Stmts.length]; omega)
+            simp [this]
+        simp only [P.sepCond, P.wantsNewline, hmin1, hsl, Bool.and_false, Bool.false_eq_true, ↓reduceIte, hwnl]
+        cases r1.mustNewline <;> simp
+  obtain ⟨nl, lt, hl⟩ := nested_list r1 s rest hw1 hf1 hsk1 hr1o hpre1 hopen ihs ihr
+  have fl2 := nested_flds r0 (.cons s rest) rp (fun q => q.stmtListLoop true (.cons s rest))
+  rw [← hr1] at fl2
+  obtain ⟨r2, hr2⟩ : ∃ r2, r2 = r0.nestedStmtsWith (.cons s rest) rp (fun q => q.stmtListLoop true (.cons s rest)) := ⟨_, rfl⟩
+  rw [← hr2] at fl2
+  have hsum2 : r2.sum = (r1.stmtListLoop true (.cons s rest)).sum := fl2.sum
+  have hw2 : W r2 := fl2.w hl.w
+  have hnl2 : NotLp r2 := by
+    intro e
+    rw [hsum2] at e
+    exact hl.notLp e
+  obtain ⟨nl2, hcl⟩ := closeParen_out r2 hw2 (by rw [fl2.first]; exact hl.first) (by rw [hsum2]; exact hl.sk) hnl2
+    (.cons s rest) lp.line rp.line rp.line
+  have hfin : p.command (.subshell lp rp (.cons s rest)) = (r2.closingParenSpace (.cons s rest) lp.line rp.line).rightParen rp.line := by
+    rw [hr2, hr0, P.command]
+  rw [hfin]
+  obtain ⟨f1, f2, f3⟩ := LStmts.withFinalNl_facts lt hl.fnl
+  have htoks : ((r2.closingParenSpace (.cons s rest) lp.line rp.line).rightParen rp.line).sum.toks =
+      p.sum.toks ++ (.lparen :: (nlT nl ++ (lt.toks ++ (nlT nl2 ++ [.rparen])))) := by
+    rw [hcl.toks, hsum2, hl.toks, fl1.sum, hop.toks]
+    simp [List.append_assoc]
+  have ho : ((r2.closingParenSpace (.cons s rest) lp.line rp.line).rightParen rp.line).o = p.o := by
+    rw [hcl.o, fl2.o, hl.o, fl1.o, hop.o]
+  have hadv : ∀ ts, p.sum.toks ++ (.lparen :: (nlT nl ++ (lt.toks ++ (nlT nl2 ++ [.rparen])))) = p.sum.toks ++ ts →
+      Adv p ((r2.closingParenSpace (.cons s rest) lp.line rp.line).rightParen rp.line) ts := by
+    intro ts hts
+    exact ⟨ho, fun _ => hcl.must (by rw [fl2.must]; exact hl.must), by rw [hcl.first, hf], by rw [htoks, hts], hcl.w⟩
+  have hafter : AfterCmd ((r2.closingParenSpace (.cons s rest) lp.line rp.line).rightParen rp.line) :=
+    ⟨hcl.ws, hcl.sk, ⟨_, hcl.last, Or.inl rfl⟩⟩
+  cases nl2 with
+  | false =>
+    refine ⟨.subshell nl lt, hadv _ (by simp [LCmd.toks, nlT]), by simpa [LCmd.valid] using hl.valid,
+      by simp [LCmd.norm, Cmd.norm, hl.norm], rfl, rfl, hafter⟩
+  | true =>
+    refine ⟨.subshell nl lt.withFinalNl, hadv _ (by simp [LCmd.toks, nlT, f1, List.append_assoc]),
+      by simpa [LCmd.valid, f2] using hl.valid, by simp [LCmd.norm, Cmd.norm, f3, hl.norm], rfl, rfl, hafter⟩
+
+/-- `{ …; }`, given the induction hypotheses for the statements inside -/
+theorem block_out (p : P) (lb rb : Pos) (s : Stmt) (rest : Stmts) (hw : W p) (hf : p.firstLine = false)
+    (_hm : p.mustNewline = false) (hr : refuse p.o = false)
+    (hpre : Pre p (Cmd.block lb rb (.cons s rest)).lines)
+    (ihs : ∀ q : P, W q → q.firstLine = false → q.mustNewline = false → refuse q.o = false → Pre q s.lines →
+      (s.startsWithLparen = true → q.sum.last = some (.op [40]) → q.wantSpace = .required) →
+      ∃ ls, StmtOutG q (q.stmt s) s ls)
+    (ihr : rest ≠ .nil → ∀ q : P, PostG q → Pre q rest.lines →
+      ∃ pre lt, ListOut q (q.stmtListLoop false rest) rest pre lt ∧ SepOK q pre) :
+    ∃ lc, CmdOutG p (p.command (.block lb rb (.cons s rest))) (.block lb rb (.cons s rest)) lc := by
+  obtain ⟨r0, hr0⟩ : ∃ r0 : P, r0 = { ((p.advanceLine lb.line).spacePad.tok [123]) with
+      wroteSemi := true, wantSpace := .required,
+      wantNewline := ((p.advanceLine lb.line).spacePad.tok [123]).wantNewline ||
+        ((p.advanceLine lb.line).spacePad.tok [123]).o.funcNextLine } := ⟨_, rfl⟩
+  have hop : BOpenOut p r0 lb := by rw [hr0]; exact blockOpen_out p hw lb _
+  obtain ⟨fl1, _, _⟩ := nestedStart_flds r0 (.cons s rest) rb
+  obtain ⟨r1, hr1⟩ : ∃ r1, r1 = r0.nestedStart (.cons s rest) rb := ⟨_, rfl⟩
+  rw [← hr1] at fl1
+  have hw1 : W r1 := fl1.w hop.w
+  have hf1 : r1.firstLine = false := by rw [fl1.first, hop.first]; exact hf
+  have hsk1 : r1.sum.sk = false := by rw [fl1.sum]; exact hop.sk
+  have hr1o : refuse r1.o = false := by rw [fl1.o, hop.o]; exact hr
+  have hlines : (Cmd.block lb rb (.cons s rest)).lines = lb.line :: ((s.lines ++ rest.lines) ++ [rb.line]) := by
+    simp [Cmd.lines, Stmts.lines]
+  rw [hlines] at hpre
+  have hplb : p.line ≤ lb.line := hpre.2 _ (by simp)
+  have hr1line : r1.line = lb.line := by rw [fl1.line, hop.line]; exact Nat.max_eq_right hplb
+  have hpre1 : Pre r1 (s.lines ++ rest.lines) := by
+    have h' := Pre.left (Pre.tail hpre)
+    refine ⟨h'.1, fun l hl => ?_⟩
+    rw [hr1line]
+    exact Pre.head_le hpre l (List.mem_cons_of_mem _ (List.mem_append_left _ hl))
+  have hopen : s.startsWithLparen = true → r1.sum.last = some (.op [40]) →
+      r1.wantSpace = .required ∨ (r1.sepCond && r1.wantsNewline s.pos.line false) = true := by
+    intro _ e
+    rw [fl1.sum, hop.last] at e
+    cases e
+  obtain ⟨nl, lt, hl⟩ := nested_list r1 s rest hw1 hf1 hsk1 hr1o hpre1 hopen ihs ihr
+  have fl2 := nested_flds r0 (.cons s rest) rb (fun q => q.stmtListLoop true (.cons s rest))
+  rw [← hr1] at fl2
+  obtain ⟨r2, hr2⟩ : ∃ r2, r2 = r0.nestedStmtsWith (.cons s rest) rb (fun q => q.stmtListLoop true (.cons s rest)) := ⟨_, rfl⟩
+  rw [← hr2] at fl2
+  have hsum2 : r2.sum = (r1.stmtListLoop true (.cons s rest)).sum := fl2.sum
+  have hw2 : W r2 := fl2.w hl.w
+  have hwsemi2 : r2.wroteSemi = (lt.finalTerm != .none) := by rw [fl2.wsemi]; exact hl.wsemi
+  obtain ⟨mid, hcl, hmid⟩ := closeBrace_out r2 hw2 (by rw [fl2.ws]; exact hl.ws) (by rw [fl2.first]; exact hl.first)
+    (by rw [hsum2]; exact hl.sk)
+    (fun h => by
+      rw [hwsemi2] at h
+      have : lt.finalTerm = .none := by cases ht : lt.finalTerm <;> simp [ht] at h ⊢
+      rw [hsum2]; exact hl.last this)
+    (fun h => by
+      rw [hwsemi2] at h
+      have : lt.finalTerm ≠ .none := by cases ht : lt.finalTerm <;> simp [ht] at h ⊢
+      rw [hsum2]; exact hl.lastT this)
+    rb.line
+  have hfin : p.command (.block lb rb (.cons s rest)) = r2.semiRsrv [125] rb.line := by
+    rw [hr2, hr0, P.command]
+    have : ((Stmts.cons s rest).length == 0) = false := by simp [Stmts.length]
+    simp only [this, Bool.and_false, Bool.false_eq_true, ↓reduceIte]
+  rw [hfin]
+  have htoks : (r2.semiRsrv [125] rb.line).sum.toks =
+      p.sum.toks ++ (.lbrace :: (nlT nl ++ (lt.toks ++ (mid ++ [.rbrace])))) := by
+    rw [hcl.toks, hsum2, hl.toks, fl1.sum, hop.toks]
+    simp [List.append_assoc]
+  have ho : (r2.semiRsrv [125] rb.line).o = p.o := by
+    rw [hcl.o, fl2.o, hl.o, fl1.o, hop.o]
+  have hadv : ∀ ts, p.sum.toks ++ (.lbrace :: (nlT nl ++ (lt.toks ++ (mid ++ [.rbrace])))) = p.sum.toks ++ ts →
+      Adv p (r2.semiRsrv [125] rb.line) ts := by
+    intro ts hts
+    exact ⟨ho, fun _ => hcl.must (by rw [fl2.must]; exact hl.must), by rw [hcl.first, hf], by rw [htoks, hts], hcl.w⟩
+  have hafter : AfterCmd (r2.semiRsrv [125] rb.line) := ⟨hcl.ws, hcl.sk, ⟨_, hcl.last, Or.inr rfl⟩⟩
+  rcases hmid with rfl | ⟨rfl, hws0⟩ | ⟨rfl, hws1⟩
+  · obtain ⟨f1, f2, f3⟩ := LStmts.withFinalNl_facts lt hl.fnl
+    refine ⟨.block nl lt.withFinalNl, hadv _ (by simp [LCmd.toks, nlT, f1, List.append_assoc]), ?_,
+      by simp [LCmd.norm, Cmd.norm, f3, hl.norm], rfl, rfl, hafter⟩
+    simp [LCmd.valid, f2, hl.valid, LStmts.withFinalNl_closable]
+  · have hft : lt.finalTerm = .none := by
+      rw [hwsemi2] at hws0
+      cases ht : lt.finalTerm <;> simp [ht] at hws0 ⊢
+    obtain ⟨g1, g2, g3, g4⟩ := LStmts.withFinalSemi_facts lt hft hl.fnl
+    refine ⟨.block nl lt.withFinalSemi, hadv _ (by simp [LCmd.toks, nlT, g1, List.append_assoc]), ?_,
+      by simp [LCmd.norm, Cmd.norm, g3, hl.norm], rfl, rfl, hafter⟩
+    simp [LCmd.valid, g2, hl.valid, g4]
+  · have hft : lt.finalTerm ≠ .none := by
+      rw [hwsemi2] at hws1
+      cases ht : lt.finalTerm <;> simp [ht] at hws1 ⊢
+    refine ⟨.block nl lt, hadv _ (by simp [LCmd.toks, nlT]), ?_, by simp [LCmd.norm, Cmd.norm, hl.norm], rfl, rfl, hafter⟩
+    simp [LCmd.valid, hl.valid, LStmts.closable_of_term lt hft]
+
+/-! ### The mutual induction -/
+
+mutual
+theorem gen_stmt : ∀ (s : Stmt), s.wf = true → ∀ (p : P), W p → p.firstLine = false → p.mustNewline = false →
+    refuse p.o = false → Pre p s.lines →
+    (s.startsWithLparen = true → p.sum.last = some (.op [40]) → p.wantSpace = .required) →
+    ∃ ls, StmtOutG p (p.stmt s) s ls
+  | .mk pos semi neg bg cmd, hwf, p, hw, hf, hm, hr, hpre, hlp => by
+    simp only [Stmt.wf, Bool.and_eq_true, Bool.not_eq_true'] at hwf
+    obtain ⟨hcwf, hnao⟩ := hwf
+    obtain ⟨h1, h2, h3, h4⟩ := Emits.stmtPre p hw neg
+    have hprec : Pre (p.stmtPre neg) cmd.lines := by
+      have h' : Pre p (cmd.lines ++ (if semi.valid then [semi.line] else [])) := Pre.tail hpre
+      exact (Pre.left h').mono (Nat.le_of_eq (line_stmtPre p neg))
+    have hlpc : cmd.startsWithLparen = true → (p.stmtPre neg).sum.last = some (.op [40]) →
+        (p.stmtPre neg).wantSpace = .required := by
+      intro hc
+      cases neg with
+      | false =>
+        obtain ⟨a, b⟩ := h4 rfl
+        rw [b, a]
+        exact hlp (by simpa [Stmt.startsWithLparen] using hc)
+      | true =>
+        intro _
+        unfold P.stmtPre P.spacedString
+        rfl
+    obtain ⟨lc, hc⟩ := gen_cmd cmd hcwf (p.stmtPre neg) h2 (by rw [h3.first]; exact hf) (by rw [h3.must]; exact hm)
+      (by rw [h3.o]; exact hr) hprec hlpc
+    obtain ⟨term, e1, e2, e3, e4, e5, e6, e7, e8, e9, e10, e11, e12⟩ := stmtEnd_gen _ hc.adv.w hc.after semi bg
+    refine ⟨.mk neg lc term, ?_⟩
+    have hamp : (term == Term.amp) = bg := by
+      cases bg with
+      | true => rw [e7 rfl]; rfl
+      | false =>
+        have := e8 rfl
+        cases term <;> simp at this ⊢
+    unfold P.stmt
+    refine ⟨⟨?_, ?_, ?_, ?_, e2⟩, ?_, ?_, rfl, ?_, ?_, e4, e5, e6, ?_, ?_, hamp, e10, e12⟩
+    · rw [e3.o, hc.adv.o, h3.o]
+    · intro hm'
+      rw [e3.must]
+      exact hc.adv.must (by rw [h3.must]; exact hm')
+    · rw [e3.first, hc.adv.first, h3.first]
+    · rw [e1, hc.adv.toks, h1]
+      simp [LStmt.toks, List.append_assoc]
+    · simp only [LStmt.valid, hc.valid, Bool.true_and, Bool.not_eq_true', hc.ao]
+      exact hnao
+    · simp [LStmt.norm, Stmt.norm, hc.norm, hamp]
+    · simpa [LStmt.cmd, Stmt.cmd] using hc.ao
+    · simpa [LStmt.cmd, Stmt.cmd] using hc.bin
+    · intro hb
+      simp only [Stmt.bare, Stmt.bg, Stmt.semi, Bool.and_eq_true, Bool.not_eq_true'] at hb
+      exact e11 hb.2 hb.1
+    · intro hsl hbg
+      apply e9 _ hbg
+      rw [hc.adv.o, h3.o]
+      exact hsl
+theorem gen_cmd : ∀ (c : Cmd), c.wf = true → ∀ (p : P), W p → p.firstLine = false → p.mustNewline = false →
+    refuse p.o = false → Pre p c.lines →
+    (c.startsWithLparen = true → p.sum.last = some (.op [40]) → p.wantSpace = .required) →
+    ∃ lc, CmdOutG p (p.command c) c lc
+  | .call args, hwf, p, hw, _, _, _, _, _ => by
+    obtain ⟨hane, hawf⟩ := call_wf_args hwf
+    obtain ⟨c1, c2⟩ := Emits.command_call args hane hawf p hw
+    refine ⟨.call (args.map Word.norm), ⟨?_, ?_, ?_, rfl, rfl, c2.toCmd⟩⟩
+    · have := Adv.of_emits c1
+      simpa [LCmd.toks, List.map_map, Function.comp_def] using this
+    · have := mkL_valid false args .none hwf
+      simpa [mkL, LStmt.valid, LCmd.isAndOr] using this
+    · simp [LCmd.norm, Cmd.norm]
+  | .subshell lp rp ss, hwf, p, hw, hf, hm, hr, hpre, hlp => by
+    simp only [Cmd.wf, Bool.and_eq_true, decide_eq_true_eq] at hwf
+    obtain ⟨hlen, hsswf⟩ := hwf
+    cases ss with
+    | nil => simp [Stmts.length] at hlen
+    | cons s rest =>
+      obtain ⟨hswf, hrwf⟩ := Stmts.wf_cons hsswf
+      exact subshell_out p lp rp s rest hw hf hm hr hpre (hlp (by simp [Cmd.startsWithLparen]))
+        (fun q => gen_stmt s hswf q) (fun hne q => gen_loop rest hrwf hne q)
+  | .block lb rb ss, hwf, p, hw, hf, hm, hr, hpre, _ => by
+    simp only [Cmd.wf, Bool.and_eq_true, decide_eq_true_eq] at hwf
+    obtain ⟨hlen, hsswf⟩ := hwf
+    cases ss with
+    | nil => simp [Stmts.length] at hlen
+    | cons s rest =>
+      obtain ⟨hswf, hrwf⟩ := Stmts.wf_cons hsswf
+      exact block_out p lb rb s rest hw hf hm hr hpre
+        (fun q => gen_stmt s hswf q) (fun hne q => gen_loop rest hrwf hne q)
+  | .binary opPos op x y, hwf, p, hw, hf, hm, hr, hpre, hlp => by
+    simp only [Cmd.wf, Bool.and_eq_true] at hwf
+    obtain ⟨⟨⟨⟨hxwf, hywf⟩, hxb⟩, hyb⟩, hshape⟩ := hwf
+    have hlines : (Cmd.binary opPos op x y).lines = x.lines ++ (opPos.line :: y.lines) := by simp [Cmd.lines]
+    rw [hlines] at hpre
+    have q1 := Quiet.advanceLine hw x.pos.line
+    obtain ⟨q2, _⟩ := Quiet.spacePad q1.w
+    have q12 := q1.trans q2
+    have hxposle := Stmt.pos_le_lines hpre
+    have hprex : Pre (p.advanceLine x.pos.line).spacePad x.lines := by
+      refine ⟨(Pre.left hpre).1, fun l hl => ?_⟩
+      rw [line_spacePad]
+      exact le_advanceLine ((Pre.left hpre).2 l hl) (hxposle l hl)
+    have hlpx : x.startsWithLparen = true → (p.advanceLine x.pos.line).spacePad.sum.last = some (.op [40]) →
+        (p.advanceLine x.pos.line).spacePad.wantSpace = .required := by
+      intro hx e
+      have hlp' : (p.advanceLine x.pos.line).sum.last = some (.op [40]) → (p.advanceLine x.pos.line).wantSpace = .required := by
+        intro e'
+        have hsum : (p.advanceLine x.pos.line).sum = p.sum := P.sum_same _ _ rfl
+        rw [hsum] at e'
+        exact hlp (by simpa [Cmd.startsWithLparen] using hx) e'
+      exact absurd e (spacePad_notLp _ q1.w hlp')
+    obtain ⟨lsx, hx⟩ := gen_stmt x hxwf _ q12.w (by rw [q12.same.first]; exact hf) (by rw [q12.same.must]; exact hm)
+      (by rw [q12.same.o]; exact hr) hprex hlpx
+    have hxt := hx.bare hxb
+    have hlast : LastCG (((p.advanceLine x.pos.line).spacePad).stmt x) := LastCG.of_closed (hx.last hxt)
+    obtain ⟨nl, hb, hbsk, hbnlp⟩ := Adv.binaryOp' _ hx.adv.w hlast opPos op y.pos.line y.isBinaryCmd
+    have hprey : Pre ((((p.advanceLine x.pos.line).spacePad).stmt x).binaryOp opPos op y.pos.line y.isBinaryCmd).1 y.lines := by
+      have h'' : Pre p ((x.lines ++ [opPos.line]) ++ y.lines) := by simpa [List.append_assoc] using hpre
+      refine Pre.next' h'' (fun M h1 h2 h3 => ?_)
+      obtain ⟨t, ht⟩ := Stmt.lines_head y
+      apply le_binaryOp _ _ _ _ _ (h2 _ (by simp)) (h3 _ (by rw [ht]; rfl))
+      apply le_stmt x M _ _ (fun l hl => h2 l (by simp [hl]))
+      rw [line_spacePad]
+      exact le_advanceLine h1 (h2 _ (by simp [Stmt.pos_mem_lines]))
+    obtain ⟨lsy, hy⟩ := gen_stmt y hywf _ hb.w (by rw [hb.first, hx.adv.first, q12.same.first]; exact hf)
+      (hb.must (hx.adv.must (by rw [q12.same.must]; exact hm)))
+      (by rw [hb.o, hx.adv.o, q12.same.o]; exact hr) hprey (fun _ e => absurd e hbnlp)
+    have hyt := hy.bare hyb
+    obtain ⟨qe, qews, qesum⟩ := Quiet.binaryEnd _ hy.adv.w
+      (((p.advanceLine x.pos.line).spacePad.stmt x).binaryOp opPos op y.pos.line y.isBinaryCmd).2.1
+      (((p.advanceLine x.pos.line).spacePad.stmt x).binaryOp opPos op y.pos.line y.isBinaryCmd).2.2
+    refine ⟨.binary op nl lsx lsy, ?_⟩
+    unfold P.command
+    dsimp only
+    refine ⟨?_, ?_, ?_, ?_, rfl, ?_⟩
+    · have := (((Adv.of_quiet q12).trans hx.adv).trans hb).trans (hy.adv.trans (Adv.of_quiet qe))
+      simpa [LCmd.toks, List.append_assoc] using this
+    · simp only [LCmd.valid, hx.valid, hy.valid, hxt, hyt, beq_self_eq_true, Bool.and_self, Bool.true_and]
+      cases op with
+      | pipe =>
+        simp only [Bool.and_eq_true, Bool.not_eq_true'] at hshape ⊢
+        obtain ⟨⟨⟨s1, s2⟩, s3⟩, s4⟩ := hshape
+        exact ⟨⟨⟨by rw [hx.neg]; exact s1, by rw [hy.neg]; exact s2⟩, by rw [hx.ao]; exact s3⟩, by rw [hy.bin]; exact s4⟩
+      | andStmt => simpa [hy.ao] using hshape
+      | orStmt => simpa [hy.ao] using hshape
+    · simp [LCmd.norm, Cmd.norm, hx.norm, hy.norm]
+    · cases op <;> rfl
+    · refine ⟨by rw [qews]; exact hy.ws, by rw [qesum]; exact hy.sk, ?_⟩
+      obtain ⟨l, e, hcl⟩ := hy.last hyt
+      exact ⟨l, by rw [qesum]; exact e, hcl⟩
+theorem gen_loop : ∀ (ss : Stmts), ss.wf = true → ss ≠ .nil → ∀ (p : P), PostG p → Pre p ss.lines →
+    ∃ pre lt, ListOut p (p.stmtListLoop false ss) ss pre lt ∧ SepOK p pre
+  | .nil, _, hne, _, _, _ => absurd rfl hne
+  | .cons s rest, hwf, _, p, hp, hpre => by
+    obtain ⟨hswf, hrwf⟩ := Stmts.wf_cons hwf
+    have hlines : (Stmts.cons s rest).lines = s.lines ++ rest.lines := by simp [Stmts.lines]
+    rw [hlines] at hpre
+    obtain ⟨pre, t1, w1, o1, m1, f1, nlp, hsep⟩ := stmtSep_postG p hp s.pos.line
+    have hposle := Stmt.pos_le_lines hpre
+    have hpq : Pre (p.stmtSep false s.pos.line) s.lines :=
+      ⟨(Pre.left hpre).1, fun l hl => le_stmtSep false _ ((Pre.left hpre).2 l hl) (hposle l hl)⟩
+    have hprest : Pre ({ ((p.stmtSep false s.pos.line).stmt s) with wantNewline := true } : P) rest.lines :=
+      Pre.next hpre (fun M h1 h2 => le_stmt s M _ (le_stmtSep false _ h1 (h2 _ (Stmt.pos_mem_lines s))) h2)
+    have hrq : refuse (p.stmtSep false s.pos.line).o = false := by rw [o1]; exact hp.notRefused
+    obtain ⟨ls, hs⟩ := gen_stmt s hswf _ w1 f1 m1 hrq hpq (fun _ e => absurd e nlp)
+    obtain ⟨lt, hl⟩ := list_assemble hs m1 f1 rest
+      (fun hne => gen_loop rest hrwf hne _ (postG_of_stmtOut hs m1 f1 hrq) hprest)
+    have hunf : p.stmtListLoop false (.cons s rest) =
+        P.stmtListLoop { ((p.stmtSep false s.pos.line).stmt s) with wantNewline := true } false rest := by
+      rw [P.stmtListLoop]
+    rw [hunf]
+    refine ⟨pre, lt, ⟨?_, hl.valid, hl.norm, hl.fnl, hl.w, hl.sk, hl.o.trans o1, hl.ws, hl.first, hl.must, hl.wsemi,
+      hl.last, hl.lastT⟩, hsep⟩
+    rw [hl.toks, t1]
+    simp [List.append_assoc]
+end
+
+/-! ### The whole file -/
+
+/-- The printer half of the round trip for all of fragment F0 (simple commands, `!`, `&`, `;`,
+    `&&`, `||`, `|`, subshells and blocks): for every option set, and every assignment of
+    positions whose line numbers never decrease in source order, the bytes printed are a concrete
+    syntax of the tree. -/
+theorem print_in_Prints_gen (o : Opts) (f : File) (b : Bytes) (hwf : f.wf = true) (hmono : posMono f)
+    (hne : f.stmts ≠ .nil) (hp : printFile o f = .ok b) :
+    ∃ (ps : List Piece) (lt : LStmts), b = render ps ∧ lexChain ps = true ∧ lt.valid = true ∧
+      expect false ps = nlT false ++ (lt.toks ++ [.eof]) ∧ lt.norm = f.norm := by
+  unfold printFile at hp
+  split at hp
+  · cases hp
+  · rename_i href
+    have href' : refuse o = false := by simpa using href
+    have hinv := ((Inv.init o).stmtList f.stmts hwf).newline 0
+    rw [hinv.finish] at hp
+    simp only [Except.ok.injEq] at hp
+    subst hp
+    obtain ⟨ss⟩ := f
+    simp only at hwf hne
+    unfold posMono at hmono
+    simp only at hmono
+    cases ss with
+    | nil => exact absurd rfl hne
+    | cons s rest =>
+      obtain ⟨hswf, hrwf⟩ := Stmts.wf_cons hwf
+      have hpre0 : Pre (P.init o) (s.lines ++ rest.lines) := by
+        refine ⟨by simpa [Stmts.lines] using hmono, fun l _ => ?_⟩
+        show 0 ≤ l
+        exact Nat.zero_le l
+      obtain ⟨s1, s2, s3, s4⟩ := stmtSep_first o s.pos.line
+      have hw0 : W ((P.init o).stmtSep true s.pos.line) :=
+        ⟨by simp [P.sum, s1, summarize], fun l hl _ => by simp [P.sum, s1, summarize] at hl⟩
+      have hsum0 : ((P.init o).stmtSep true s.pos.line).sum.toks = [] := by simp [P.sum, s1, summarize]
+      have hposle := Stmt.pos_le_lines hpre0
+      have hpq : Pre ((P.init o).stmtSep true s.pos.line) s.lines :=
+        ⟨(Pre.left hpre0).1, fun l hl => le_stmtSep true _ ((Pre.left hpre0).2 l hl) (hposle l hl)⟩
+      have hprest : Pre ({ (((P.init o).stmtSep true s.pos.line).stmt s) with wantNewline := true } : P) rest.lines :=
+        Pre.next hpre0 (fun M h1 h2 => le_stmt s M _ (le_stmtSep true _ h1 (h2 _ (Stmt.pos_mem_lines s))) h2)
+      have hrq : refuse ((P.init o).stmtSep true s.pos.line).o = false := by rw [s4]; exact href'
+      obtain ⟨ls, hs⟩ := gen_stmt s hswf _ hw0 s2 s3 hrq hpq (fun _ e => by simp [P.sum, s1, summarize] at e)
+      obtain ⟨lt, hl⟩ := list_assemble hs s3 s2 rest
+        (fun hne => gen_loop rest hrwf hne _ (postG_of_stmtOut hs s3 s2 hrq) hprest)
+      have hunf : (P.init o).stmtListLoop true (.cons s rest) =
+          P.stmtListLoop { (((P.init o).stmtSep true s.pos.line).stmt s) with wantNewline := true } false rest := by
+        rw [P.stmtListLoop]
+      rw [← hunf] at hl
+      obtain ⟨pf, hpf⟩ : ∃ pf, pf = (P.init o).stmtListLoop true (.cons s rest) := ⟨_, rfl⟩
+      rw [← hpf] at hl
+      have ht : pf.sum.toks = lt.toks := by
+        rw [hl.toks, hsum0]
+        simp
+      obtain ⟨f1, f2, f3⟩ := LStmts.withFinalNl_facts lt hl.fnl
+      have hout : (((P.init o).stmtList (.cons s rest)).newline 0).out = .gap [10] :: pf.out := by
+        have := (P.stmtListWith_out (P.init o) (.cons s rest) (fun q => q.stmtListLoop true (.cons s rest))).1
+        unfold P.stmtList
+        show Piece.gap [10] :: _ = _
+        rw [this, hpf]
+      refine ⟨_, lt.withFinalNl, rfl, ?_⟩
+      have hsumF : summarize {} ((((P.init o).stmtList (.cons s rest)).newline 0).out.reverse) =
+          pf.sum.step (.gap [10]) := by
+        rw [hout]
+        simp [P.sum, summarize, List.foldl_append]
+      obtain ⟨c1, c2⟩ := lexChain_expect_init _ (by rw [hsumF, step_nl]; exact hl.w.ok) (by rw [hsumF, step_nl]; rfl)
+      refine ⟨c1, by rw [f2]; exact hl.valid, ?_, by rw [f3, hl.norm]; rfl⟩
+      rw [c2, hsumF, step_nl, hl.sk, ht, f1]
+      simp [nlT]
+
 end ShVerif.L4
